@@ -1,0 +1,15 @@
+//go:build verif
+// +build verif
+
+package network
+
+// Accessors of the router's connection table for the verification harness
+// (properties C01 and C05); compiled only with the build tag "verif".
+
+// VerifConnsTo returns the connections registered for the peer with that
+// identifier, in table order (Router.connection returns the first one).
+func (r *Router) VerifConnsTo(id ServerIdentityID) []Conn {
+	r.Lock()
+	defer r.Unlock()
+	return append([]Conn{}, r.connections[id]...)
+}
